@@ -40,6 +40,7 @@ import (
 	"github.com/nspcc-dev/neo-go/pkg/io"
 	"github.com/nspcc-dev/neo-go/pkg/neotest"
 	"github.com/nspcc-dev/neo-go/pkg/smartcontract/callflag"
+	"github.com/nspcc-dev/neo-go/pkg/smartcontract/manifest"
 	"github.com/nspcc-dev/neo-go/pkg/util"
 	"github.com/nspcc-dev/neo-go/pkg/vm/emit"
 	"github.com/nspcc-dev/neo-go/pkg/vm/opcode"
@@ -658,7 +659,7 @@ func runPerm(r *vk.Run, ps *permStats) map[string]any {
 		fmt.Println("CHECK-ERROR: cannot prepare the permission chain:", err)
 		os.Exit(3)
 	}
-	defer pw.n.Close()
+	defer func() { pw.n.Close() }()
 	pw.pure(r, ps)
 	all := pw.allCallers()
 	var dep []callerSpec
@@ -699,19 +700,22 @@ func runPerm(r *vk.Run, ps *permStats) map[string]any {
 		r.Outcome(sub + ":" + got)
 		r.Sample(map[string]any{"sub": sub, "caller_permissions": j.cs.String(), "callee": j.c.Name, "callee_groups": j.c.Groups, "method": j.md.Name, "safe": j.md.Safe, "result": got})
 	}
-	r.Parallel(len(pjs), func(i int) {
-		j := pjs[i]
-		got, e := pw.realCall(j.cs, j.c, j.md)
-		ps.mu.Lock()
-		ps.real++
-		if got == "allowed" {
-			ps.allowed++
-		} else if got == "denied" {
-			ps.denied++
-		}
-		ps.mu.Unlock()
-		judge("perm-real", j, got, e)
-	})
+	realMatrix := func(sub string) {
+		r.Parallel(len(pjs), func(i int) {
+			j := pjs[i]
+			got, e := pw.realCall(j.cs, j.c, j.md)
+			ps.mu.Lock()
+			ps.real++
+			if got == "allowed" {
+				ps.allowed++
+			} else if got == "denied" {
+				ps.denied++
+			}
+			ps.mu.Unlock()
+			judge(sub, j, got, e)
+		})
+	}
+	realMatrix("perm-real")
 	// observed, not judged: a script loaded dynamically by a caller WITHOUT any
 	// permission calls a non-safe method (the loaded script is not a deployed
 	// contract; it runs with read-only flags at most)
@@ -735,50 +739,68 @@ func runPerm(r *vk.Run, ps *permStats) map[string]any {
 			btx = append(btx, j)
 		}
 	}
-	val := []neotest.Signer{pw.n.Validator}
-	for lo := 0; lo < len(btx) && !r.Expired(); lo += 40 {
-		part := btx[lo:min(lo+40, len(btx))]
-		var hashes []util.Uint256
-		blockTxs, err := pw.buildCallTxs(val, part)
-		if err != nil {
-			fmt.Println("CHECK-ERROR: cannot build permission call transactions:", err)
-			os.Exit(3)
-		}
-		if _, err := pw.n.AddBlock(blockTxs...); err != nil {
-			fmt.Println("CHECK-ERROR: permission block rejected:", err)
-			os.Exit(3)
-		}
-		for _, tx := range blockTxs {
-			hashes = append(hashes, tx.Hash())
-		}
-		for k, h := range hashes {
-			aers, err := pw.n.BC.GetAppExecResults(h, 0x40)
-			got, fault := "error", ""
-			if err == nil && len(aers) == 1 {
-				fault = aers[0].FaultException
-				switch {
-				case aers[0].VMState.String() == "HALT":
-					got = "allowed"
-				case strings.Contains(fault, "disallowed method call"):
-					got = "denied"
-				}
+	blockSubset := func(sub string) {
+		val := []neotest.Signer{pw.n.Validator}
+		for lo := 0; lo < len(btx) && !r.Expired(); lo += 40 {
+			part := btx[lo:min(lo+40, len(btx))]
+			var hashes []util.Uint256
+			blockTxs, err := pw.buildCallTxs(val, part)
+			if err != nil {
+				fmt.Println("CHECK-ERROR: cannot build permission call transactions:", err)
+				os.Exit(3)
 			}
-			ps.block++
-			judge("perm-block", part[k], got, &effects{Fault: fault})
+			if _, err := pw.n.AddBlock(blockTxs...); err != nil {
+				fmt.Println("CHECK-ERROR: permission block rejected:", err)
+				os.Exit(3)
+			}
+			for _, tx := range blockTxs {
+				hashes = append(hashes, tx.Hash())
+			}
+			for k, h := range hashes {
+				aers, err := pw.n.BC.GetAppExecResults(h, 0x40)
+				got, fault := "error", ""
+				if err == nil && len(aers) == 1 {
+					fault = aers[0].FaultException
+					switch {
+					case aers[0].VMState.String() == "HALT":
+						got = "allowed"
+					case strings.Contains(fault, "disallowed method call"):
+						got = "denied"
+					}
+				}
+				ps.block++
+				judge(sub, part[k], got, &effects{Fault: fault})
+			}
 		}
 	}
+	blockSubset("perm-block")
+	// graceful restart on the same store: the Management cache is rebuilt from the
+	// STORED (stack item) form of every manifest; the predicate must hold as before
+	restarted := false
+	if !r.Expired() {
+		m, err := pw.n.Reopen()
+		if err != nil {
+			fmt.Println("CHECK-ERROR: cannot restart the permission node:", err)
+			os.Exit(3)
+		}
+		pw.n = m
+		restarted = true
+		realMatrix("perm-real-after-restart")
+		blockSubset("perm-block-after-restart")
+	}
 	info := map[string]any{
-		"contract_descriptors":        pw.descs,
-		"method_lists":                []string{"*", "[run]", "[other]", "[run,other,transfer]", "[]"},
-		"callees":                     "Cn (no group), Cg (group G1), Cgg (groups G2,G1), O (group G3), GAS (native); methods run, other, runSafe(safe) / transfer, balanceOf(safe)",
-		"caller_manifests_pure":       len(all),
-		"caller_contracts_deployed":   ps.deployed,
-		"pure_evaluations":            ps.pure,
-		"real_calls_test_vm":          ps.real,
-		"real_calls_in_blocks":        ps.block,
-		"real_allowed":                ps.allowed,
-		"real_denied":                 ps.denied,
-		"mismatches_group_root_cause": ps.rootCause,
+		"contract_descriptors":          pw.descs,
+		"method_lists":                  []string{"*", "[run]", "[other]", "[run,other,transfer]", "[]"},
+		"callees":                       "Cn (no group), Cg (group G1), Cgg (groups G2,G1), O (group G3), GAS (native); methods run, other, runSafe(safe) / transfer, balanceOf(safe)",
+		"caller_manifests_pure":         len(all),
+		"caller_contracts_deployed":     ps.deployed,
+		"pure_evaluations":              ps.pure,
+		"real_calls_test_vm":            ps.real,
+		"real_calls_in_blocks":          ps.block,
+		"matrix_repeated_after_restart": restarted,
+		"real_allowed":                  ps.allowed,
+		"real_denied":                   ps.denied,
+		"mismatches_group_root_cause":   ps.rootCause,
 		"observed_not_judged_call_of_non_safe_method_from_a_script_loaded_by_a_caller_without_permissions": loadObs,
 	}
 	info["mismatches_group_root_cause_by_subcheck"] = ps.rootBySub
@@ -922,7 +944,7 @@ func replay(r *vk.Run) {
 			fmt.Println("CHECK-ERROR:", err)
 			os.Exit(3)
 		}
-		defer pw.n.Close()
+		defer func() { pw.n.Close() }()
 		c := pw.byName[pc.Callee]
 		var md calleeMethod
 		for _, m := range c.Methods {
@@ -937,8 +959,22 @@ func replay(r *vk.Run) {
 				os.Exit(3)
 			}
 		}
+		if strings.Contains(pc.Sub, "after-restart") {
+			m, err := pw.n.Reopen()
+			if err != nil {
+				fmt.Println("CHECK-ERROR:", err)
+				os.Exit(3)
+			}
+			pw.n = m
+		}
 		for i := 0; i < 5; i++ {
 			m := manifestOf(pw, pc.Caller)
+			if it, err := m.ToStackItem(); err == nil { // the stored form
+				m2 := new(manifest.Manifest)
+				if m2.FromStackItem(it) == nil {
+					m = m2
+				}
+			}
 			pure := verdict(m.CanCall(c.Hash, c.Mf, pc.Method))
 			want := verdict(allowedBy(pc.Caller.Perms, c, pc.Method))
 			real := "n/a"
